@@ -5,6 +5,11 @@
 EXTENDS GrogBuildMC, Json
 
 CONSTANT Systematic   \* TRUE: enumerate (model-checking mode) every history  full build ; non-build actions ; build
+CONSTANT Shape        \* with Systematic: {} = the shape above, or the set of step numbers (1..MaxSteps) that are builds, all other
+                      \* steps being non-build actions, e.g. {1, 3, 5} = build; action; build; action; build
+CONSTANT Canonical    \* with Systematic, a selection of the histories above that reaches three- and four-action combinations without
+                      \* their permutations: "off"; "kinds" = the non-build actions come in a fixed order of kinds, one per kind;
+                      \* "sink" = in increasing order of (kind, target), edits only of the last target, perturbations only deletions
 VARIABLE hist
 
 S(v) == ToString(v)
@@ -22,13 +27,27 @@ Header ==
   [ targets |-> Targets, order |-> Order, decldeps |-> DeclDeps, aliases |-> Aliases, outkind |-> OutKind,
     infiles |-> InFiles, globt |-> GlobT, checkt |-> CheckT, alias0 |-> hist[1].alias0, files0 |-> hist[1].files0, maxsteps |-> MaxSteps ]
 
+KindRank(k) == CASE k = "edit" -> 1 [] k = "taint" -> 2 [] k = "breakext" -> 3 [] k = "dropblob" -> 4 [] k = "perturb" -> 5
+                 [] k = "platform" -> 6 [] k = "relocate" -> 7 [] OTHER -> 0
+Pos(t) == IF \E i \in 1..Len(Order) : Order[i] = t THEN CHOOSE i \in 1..Len(Order) : Order[i] = t ELSE 0
+HasT(l) == l.kind \in {"edit", "taint", "perturb", "breakext", "dropblob"}
+CanonOK ==
+  CASE Canonical = "kinds" -> KindRank(last.kind) < KindRank(last'.kind)
+    [] Canonical = "sink"  -> /\ \/ KindRank(last.kind) < KindRank(last'.kind)
+                                 \/ KindRank(last.kind) = KindRank(last'.kind) /\ HasT(last) /\ HasT(last') /\ Pos(last.t) < Pos(last'.t)
+                              /\ last'.kind = "edit" => last'.t = Order[Len(Order)]
+                              /\ last'.kind = "perturb" => ws'[last'.t] = Absent
+    [] OTHER -> TRUE
 GInit == Init /\ hist = << [alias0 |-> alias, files0 |-> files] >>
 MustBuild == steps % 3 = 2 \/ steps = MaxSteps - 1
 GNext == /\ Next
          /\ IF Systematic
               THEN /\ steps = 0 => (last'.kind = "build" /\ last'.s = "ALL" /\ last'.cacheOn)
-                   /\ (steps > 0 /\ steps < MaxSteps - 1) => last'.kind # "build"
-                   /\ steps = MaxSteps - 1 => last'.kind = "build"
+                   /\ IF Shape = {}
+                        THEN /\ (steps > 0 /\ steps < MaxSteps - 1) => last'.kind # "build"
+                             /\ steps = MaxSteps - 1 => last'.kind = "build"
+                        ELSE (steps + 1) \in Shape <=> last'.kind = "build"
+                   /\ (steps > 0 /\ last'.kind # "build") => CanonOK     \* (after a build the order starts again: KindRank("build") = 0)
               ELSE MustBuild => last'.kind = "build"
          /\ hist' = Append(hist, StateRec)
 GSpec == GInit /\ [][GNext]_<<vars, hist>>
